@@ -587,10 +587,13 @@ struct Instance {
     model_cfg: Config,
     queries: Vec<usize>,
     probe_queries: Vec<usize>,
+    probe_offsets: &'static [u64],
     ops: Vec<Op>,
 }
 
 const PROBE_OFFSETS_MS: [u64; 12] = [0, 400, 600, 1000, 1400, 2000, 2600, 3000, 4000, 5000, 5400, 7000];
+/// the multi-query grids look ahead more coarsely (their purpose is cross-query interference)
+const PROBE_OFFSETS_COARSE_MS: [u64; 4] = [0, 600, 1400, 3000];
 
 struct ExecOut {
     key: u64,
@@ -718,7 +721,7 @@ fn execute(env: &Env, inst: &Instance, hist: &[Op], count_from: usize, probes: b
     }
     let mut digest = 0x9e3779b97f4a7c15u64;
     if probes {
-        for off in PROBE_OFFSETS_MS {
+        for &off in inst.probe_offsets {
             for &qi in &inst.probe_queries {
                 let now = model.now_ms + off;
                 let d = get(&mut model, qi, now, true, l, hist.len(), Some((qi, off)));
@@ -756,6 +759,7 @@ struct GridSpec {
     shapes: Vec<&'static str>,
     dts: Vec<u32>,
     max_depth: usize,
+    coarse_probes: bool,
 }
 
 fn foreign_query(qs: &[usize]) -> usize {
@@ -805,6 +809,7 @@ fn instances(env: &Env, cfgs: &[CfgSpec], g: &GridSpec, seed: u64) -> Vec<Instan
                 cfg,
                 queries: qs.clone(),
                 probe_queries,
+                probe_offsets: if g.coarse_probes { &PROBE_OFFSETS_COARSE_MS } else { &PROBE_OFFSETS_MS },
                 ops,
             });
         }
@@ -945,6 +950,7 @@ fn main() {
             cfg,
             queries: vec![0, 1, 2],
             probe_queries,
+            probe_offsets: &PROBE_OFFSETS_MS,
             ops: vec![],
         };
         ctx.with_local(|l| match catch(|| execute(&env, &inst, &hist, 0, true, l)) {
@@ -1024,6 +1030,7 @@ fn main() {
             shapes: near_shapes.clone(),
             dts: vec![0, 400, 600, 1000, 2000, 4000],
             max_depth: 40,
+            coarse_probes: false,
         },
         &mut base_id,
     );
@@ -1033,7 +1040,7 @@ fn main() {
     }
 
     // G2: two queries (same name / different name), sub-alphabets, to the fixpoint
-    let pair_cfgs: Vec<usize> = if quick { vec![0, 2, 4, 6, 9, 11, 15, 20, 23, 27, 30, 35] } else { all_cfgs.clone() };
+    let pair_cfgs: Vec<usize> = if quick { vec![0, 2, 6, 9, 15, 23, 27, 30, 35] } else { all_cfgs.clone() };
     let pair_shapes: Vec<&'static str> = if quick {
         vec!["q1", "q5", "cname1+q5", "q2+ns7+glue1", "mx2", "neg1-full", "neg3", "err-timeout"]
     } else {
@@ -1047,6 +1054,7 @@ fn main() {
             shapes: pair_shapes,
             dts: if quick { vec![400, 600, 1000, 2000] } else { vec![0, 400, 600, 1000, 2000, 4000] },
             max_depth: 40,
+            coarse_probes: true,
         },
         &mut base_id,
     );
@@ -1064,6 +1072,7 @@ fn main() {
             shapes: if quick { vec!["q1", "cname1+q5", "neg1-full", "err-timeout"] } else { vec!["q1", "q5", "cname1+q5", "neg1-full", "neg3", "err-timeout"] },
             dts: if quick { vec![600, 1000, 2000] } else { vec![400, 600, 1000, 2000] },
             max_depth: if quick { 6 } else { 40 },
+            coarse_probes: true,
         },
         &mut base_id,
     );
@@ -1081,6 +1090,7 @@ fn main() {
             shapes: vec!["q1", "q1+q5", "cname1+q5", "neg1-full", "err-timeout"],
             dts: vec![400, 1000, 2000],
             max_depth: if quick { 4 } else { 5 },
+            coarse_probes: false,
         };
         let insts = instances(&env, &cfgs, &g, ctx.seed);
         let mut free_states = 0u64;
@@ -1129,6 +1139,7 @@ fn main() {
                 cfg: c.clone(),
                 queries: vec![0, 1, 2],
                 probe_queries: vec![0, 1, 2],
+                probe_offsets: &PROBE_OFFSETS_MS,
                 ops: vec![],
             })
             .collect();
